@@ -898,6 +898,9 @@ func c05GenScn(t *rapid.T, o c05GenOpt, excludedCase func(id string)) *c05Scn {
 	for i := range s.ReadChunk {
 		s.ReadChunk[i] = max(s.ReadChunk[i], minChunk)
 	}
+	if s.MemLimit > 0 && s.MemLimit < minChunk {
+		s.MemLimit = minChunk // a 1-byte pipe under 300 KiB is 300 000 goroutine hand-overs
+	}
 	return s
 }
 
@@ -1065,8 +1068,29 @@ func (d *c05Dae) markStart() {
 // c05Composed builds the relay's left side exactly as handleConn does (tcp.go
 // 144-218), by calling the same production functions in the same order, then relays.
 func (d *c05Dae) composed(s *c05Scn, lConn net.Conn, rConn netproxy.Conn) {
-	defer func() { _ = lConn.Close() }()
 	defer func() { _ = rConn.Close() }()
+	lRelayConn, cleanup, ok := d.buildLeft(s, lConn)
+	defer cleanup()
+	d.markStart()
+	if !ok {
+		d.endAt = time.Now()
+		return
+	}
+	d.relayErr = RelayTCPContextWithRecords(context.Background(), lRelayConn, rConn,
+		func(n int64) { d.down.Add(n) }, func(n int64) { d.up.Add(n) })
+	d.endAt = time.Now()
+}
+
+// buildLeft is handleConn's wiring of the client side between accept and dial
+// (tcp.go 144-218): the same production functions, in the same order.
+func (d *c05Dae) buildLeft(s *c05Scn, lConn net.Conn) (lRelayConn netproxy.Conn, cleanup func(), ok bool) {
+	var closers []func()
+	cleanup = func() {
+		for i := len(closers) - 1; i >= 0; i-- {
+			closers[i]()
+		}
+	}
+	closers = append(closers, func() { _ = lConn.Close() })
 	d.stackKind = "conn"
 	if s.Stack == c05StackPort53 {
 		bufReader := bufio.NewReader(lConn)
@@ -1074,21 +1098,17 @@ func (d *c05Dae) composed(s *c05Scn, lConn net.Conn, rConn netproxy.Conn) {
 		d.dnsErr = err
 		if err == nil && !msg.Response {
 			d.dnsHandled = true // a query: DNS fast path territory, not a relay
-			d.markStart()
-			d.endAt = time.Now()
-			return
+			return nil, cleanup, false
 		}
 		lConn = &bufioConn{Conn: lConn, reader: bufReader}
 		d.stackKind = "bufioConn"
 	}
-	var lRelayConn netproxy.Conn = lConn
+	lRelayConn = lConn
 	if s.Stack == c05StackSniff {
 		probeConn, prefetched, ready, probeErr := prefetchForTcpSniff(lConn, s.SniffT, tcpSniffPrefetchBytes)
 		if probeErr != nil {
 			d.relayErr = probeErr
-			d.markStart()
-			d.endAt = time.Now()
-			return
+			return nil, cleanup, false
 		}
 		d.prefetched = len(prefetched)
 		switch {
@@ -1099,16 +1119,13 @@ func (d *c05Dae) composed(s *c05Scn, lConn net.Conn, rConn netproxy.Conn) {
 			d.stackKind = "prefixedConn"
 		default:
 			sniffer := sniffing.NewConnSniffer(probeConn, s.SniffT)
-			defer func() { _ = sniffer.Close() }()
+			closers = append(closers, func() { _ = sniffer.Close() })
 			lRelayConn = sniffer
 			d.stackKind = "ConnSniffer"
 			d.domain, d.sniffErr = sniffer.SniffTcp()
 		}
 	}
-	d.markStart()
-	d.relayErr = RelayTCPContextWithRecords(context.Background(), lRelayConn, rConn,
-		func(n int64) { d.down.Add(n) }, func(n int64) { d.up.Add(n) })
-	d.endAt = time.Now()
+	return lRelayConn, cleanup, true
 }
 
 type c05Dialer struct {
